@@ -328,11 +328,10 @@ impl ValueExpr for FunctionCallExpr {
                         )
                         .unwrap()
                     }
-                    LhsValue::Array(mut arr) => {
-                        if !arr.is_empty() {
-                            arr = arr.filter_map_to(return_type, |elem| call(&mut f(elem)));
-                        }
-                        arr
+                    // Always rebuild the array, even when it is empty: the result must
+                    // be tagged with the function's return type, not the input's.
+                    LhsValue::Array(arr) => {
+                        arr.filter_map_to(return_type, |elem| call(&mut f(elem)))
                     }
                     _ => unreachable!(),
                 };
